@@ -13,12 +13,13 @@ pub mod c10;
 pub mod c13;
 pub mod c14;
 pub mod c18;
+pub mod c19;
 pub mod wire;
 pub mod peer;
 pub mod common;
 
 pub fn ids() -> Vec<&'static str> {
-    vec!["C01", "C02", "C03", "C04", "C06", "C07", "C08", "C09", "C10", "C13", "C14", "C18"]
+    vec!["C01", "C02", "C03", "C04", "C06", "C07", "C08", "C09", "C10", "C13", "C14", "C18", "C19"]
 }
 pub fn get(id: &str) -> Option<Box<dyn Check>> {
     match id {
@@ -34,6 +35,7 @@ pub fn get(id: &str) -> Option<Box<dyn Check>> {
         "C13" => Some(Box::new(c13::C13)),
         "C14" => Some(Box::new(c14::C14)),
         "C18" => Some(Box::new(c18::C18)),
+        "C19" => Some(Box::new(c19::C19)),
         _ => None,
     }
 }
